@@ -1,6 +1,6 @@
 (* ExtendedCopy (Model/CopyExt.v): success => the graph of every root above the node is in the
    destination and the destination reference is the node. *)
-From Oras Require Import Base.Prelude Model.CopySpec Model.CopyExt Proofs.CopySpec Proofs.CopyLinks Model.CopyBytes Proofs.CopyBytes.
+From Oras Require Import Base.Prelude Model.CopySpec Model.CopyExt Proofs.CopySpec Proofs.CopyLinks Model.CopyBytes Proofs.CopyBytes Model.CopyOpt Model.CopyCancel Proofs.CopyOpt Proofs.CopyCancel.
 Local Open Scope nat_scope.
 
 Ltac simp_st := cbn [set_ph ph dst cached tag returned] in *.
@@ -218,3 +218,99 @@ Proof.
   exact (bytes_of_present g _ served bs0 bs d0 n Hcf Hk Hv0 Hd0 Hb Hp).
 Qed.
 End BytesExt.
+
+(* ---- every option set, with cancellation: xcaccepts_opt is sound for xaccepts ---- *)
+Lemma step_no_tag_in_graph_mode g c d0 st e st' : c_mode c = MGraph -> Inv g c d0 st ->
+  step g c st e = Some st' -> (forall n, e <> TagB n) /\ (forall n, e <> TagE n).
+Proof.
+  intros Hm I H.
+  assert (NT : forall n, tagging_ph (ph st n) = true -> False).
+  { intros n Ht. apply (i_tagging g c d0 st I) in Ht. apply root_tagger_root in Ht as [_ Ht]. congruence. }
+  split; intros n Heq; subst e; unfold step in H; destruct (returned st); try discriminate H;
+    destruct (ph st n) eqn:P; try discriminate H; apply (NT n); rewrite P; reflexivity.
+Qed.
+
+Lemma run_to_xrun g c d0 tgt full : c_mode c = MGraph -> forall st s0, Inv g c d0 st -> returned st = None ->
+  run g c st full = Some s0 -> returned s0 = Some true ->
+  exists w, full = w ++ [Ret true] /\
+            xrun g c tgt st (w ++ [TagB tgt; TagE tgt; Ret true]) = Some (with_tag s0 tgt).
+Proof.
+  intro Hm. induction full as [|a r IH]; intros st s0 I Hn R Hr.
+  - simpl in R. injection R as <-. congruence.
+  - simpl in R. destruct (step g c st a) as [s1|] eqn:E; [|discriminate R].
+    destruct (step_no_tag_in_graph_mode g c d0 st a s1 Hm I E) as [NB NE].
+    pose proof (step_preserves_inv g c d0 st a s1 I E) as I1.
+    destruct a;
+      try solve [ exfalso; eapply NB; reflexivity | exfalso; eapply NE; reflexivity
+                | assert (Hn1 : returned s1 = None)
+                    by (rewrite (step_keeps_returned g c st _ s1 E); [exact Hn | intros; discriminate]);
+                  destruct (IH s1 s0 I1 Hn1 R Hr) as [w [-> X]];
+                  eexists (_ :: w); split; [reflexivity|]; cbn [app xrun]; rewrite E; exact X ].
+    (* Ret ok *)
+    assert (Hb : returned s1 = Some ok).
+    { clear R. unfold step in E. rewrite Hn in E.
+      destruct ok;
+        repeat match type of E with (if ?b then _ else _) = _ => destruct b; [|try discriminate E] end;
+        try discriminate E; now injection E as <-. }
+    destruct r as [|e2 r2].
+    + simpl in R. injection R as <-. assert (ok = true) by congruence. subst ok.
+      exists []. split; [reflexivity|]. cbn [app xrun]. rewrite !Nat.eqb_refl. cbn [andb]. now rewrite E.
+    + simpl in R. rewrite (step_after_ret g c s1 e2 ok Hb) in R. discriminate R.
+Qed.
+
+Lemma xcaccepts_sound cs g c tgt d0 tr s full : c_mode c = MGraph ->
+  xcaccepts_opt cs g c tgt d0 tr = Some (s, full) -> returned (cs_st s) = Some true ->
+  exists w, full = w ++ [Ret true] /\
+            xaccepts g c tgt d0 (w ++ [TagB tgt; TagE tgt; Ret true]) = Some (cs_st s).
+Proof.
+  intros Hm H Hr. unfold xcaccepts_opt in H. destruct (xstrip tgt tr) as [tr'|].
+  - destruct (caccepts_opt cs g c d0 tr') as [[s0 f]|] eqn:A; [|discriminate H].
+    destruct (returned (cs_st s0)) as [[|]|] eqn:R0; try discriminate H. injection H as <- <-. simpl.
+    apply (run_to_xrun g c d0 tgt f Hm (init c d0) (cs_st s0) (init_inv g c d0) eq_refl); [|exact R0].
+    exact (crun_sound cs g c tr' _ _ _ A R0).
+  - destruct (caccepts_opt cs g c d0 tr) as [[s0 f]|]; [|discriminate H].
+    destruct (returned (cs_st s0)) as [[|]|] eqn:R0; try discriminate H; injection H as <- <-; congruence.
+Qed.
+
+(* ExtendedCopy under any option set and cancellation: success => reference on the node, all roots' graphs present *)
+Lemma extended_copy_any_options cs g c tgt d0 tr s full :
+  closed_nodes g d0 -> mt_consistent g -> c_mode c = MGraph ->
+  xcaccepts_opt cs g c tgt d0 tr = Some (s, full) -> returned (cs_st s) = Some true ->
+  tag (cs_st s) = Some tgt /\
+  forall r n, In r (c_root c :: c_xroots c) -> reach g r n -> has g (dst (cs_st s)) n = true.
+Proof.
+  intros Hc Hmt Hm H Hr. destruct (xcaccepts_sound cs g c tgt d0 tr s full Hm H Hr) as [w [_ X]].
+  exact (extended_copy_lemma g c tgt d0 _ (cs_st s) Hc Hmt X Hr).
+Qed.
+
+(* and no success without the tag: a recorded trace that returns success ends TagB node, TagE node, Ret true *)
+Lemma xstrip_shape tgt tr : forall tr', xstrip tgt tr = Some tr' ->
+  exists w, tr = w ++ [Ev (TagB tgt); Ev (TagE tgt); Ev (Ret true)] /\ tr' = w ++ [Ev (Ret true)].
+Proof.
+  induction tr as [|ce r IH]; intros tr' H; [discriminate H|].
+  assert (Gen : match xstrip tgt r with Some r' => Some (ce :: r') | None => None end = Some tr' ->
+                exists w, ce :: r = w ++ [Ev (TagB tgt); Ev (TagE tgt); Ev (Ret true)] /\ tr' = w ++ [Ev (Ret true)]).
+  { intro H0. destruct (xstrip tgt r) as [r'|]; [|discriminate H0]. injection H0 as <-.
+    destruct (IH r' eq_refl) as [w [-> ->]]. exists (ce :: w). split; reflexivity. }
+  destruct ce as [e|]; [|apply Gen; exact H].
+  destruct e; try (apply Gen; exact H).
+  destruct r as [|[e2|] r2]; try (apply Gen; exact H).
+  destruct e2; try (apply Gen; exact H).
+  destruct r2 as [|[e3|] r3]; try (apply Gen; exact H).
+  destruct e3; try (apply Gen; exact H).
+  destruct ok; try (apply Gen; exact H).
+  destruct r3; try (apply Gen; exact H).
+  simpl in H. destruct (Nat.eqb n tgt && Nat.eqb n0 tgt) eqn:En; [|discriminate H].
+  apply andb_true_iff in En as [E1 E2]. apply Nat.eqb_eq in E1, E2. subst. injection H as <-.
+  exists []. split; reflexivity.
+Qed.
+
+Lemma extended_copy_success_is_tagged cs g c tgt d0 tr s full :
+  xcaccepts_opt cs g c tgt d0 tr = Some (s, full) -> returned (cs_st s) = Some true ->
+  exists w, tr = w ++ [Ev (TagB tgt); Ev (TagE tgt); Ev (Ret true)].
+Proof.
+  intros H Hr. unfold xcaccepts_opt in H. destruct (xstrip tgt tr) as [tr'|] eqn:X.
+  - destruct (xstrip_shape tgt tr tr' X) as [w [-> _]]. now exists w.
+  - destruct (caccepts_opt cs g c d0 tr) as [[s0 f]|]; [|discriminate H].
+    destruct (returned (cs_st s0)) as [[|]|] eqn:R0; try discriminate H; injection H as <- <-; congruence.
+Qed.
